@@ -82,6 +82,7 @@ type Kernel struct {
 
 	stallIvls    []ivl
 	Strict       bool
+	ranks        map[uint64]uint64
 	opIssued     map[int]bool
 	stallCount   []int
 	stallFired   []bool
@@ -197,7 +198,48 @@ func (k *Kernel) Signature() uint64 {
 	return k.sigHash
 }
 
-func (k *Kernel) At(at int64, key string, run func()) {
+func (k *Kernel) At(at int64, key string, run func()) { k.atSeq(at, key, 0, run) }
+
+// goid returns the id of the calling goroutine. Ids grow in creation order, which under
+// strict scheduling is program order of the (single) running goroutine: a stable identity to
+// break ties between goroutines that wait at the same seam at the same instant.
+func goid() uint64 {
+	var buf [64]byte
+	n := runtime.Stack(buf[:], false)
+	// "goroutine 123 [..."
+	var id uint64
+	for i := len("goroutine "); i < n && buf[i] >= '0' && buf[i] <= '9'; i++ {
+		id = id*10 + uint64(buf[i]-'0')
+	}
+	return id
+}
+
+// setRank: the calling goroutine is the callback of the rank-th timer created by the library.
+func (k *Kernel) setRank(rank uint64) {
+	id := goid()
+	k.mu.Lock()
+	if k.ranks == nil {
+		k.ranks = map[uint64]uint64{}
+	}
+	k.ranks[id] = rank
+	k.mu.Unlock()
+}
+
+// tieSeq orders goroutines that wait at the same seam at the same instant: timer callbacks by
+// the creation order of their timers, all others (started by go statements of a goroutine
+// that runs alone) by their ids, after the timer callbacks.
+func (k *Kernel) tieSeq() uint64 {
+	id := goid()
+	k.mu.Lock()
+	r, ok := k.ranks[id]
+	k.mu.Unlock()
+	if ok {
+		return r
+	}
+	return 1<<40 + id
+}
+
+func (k *Kernel) atSeq(at int64, key string, seq uint64, run func()) {
 	if k.Free {
 		// free-running: a timer is the only link between the scheduling goroutine and run
 		d := at - k.Now()
@@ -209,7 +251,10 @@ func (k *Kernel) At(at int64, key string, run func()) {
 	}
 	k.mu.Lock()
 	k.seq++
-	heap.Push(&k.q, &Event{At: at, Key: key, Seq: k.seq, Run: run})
+	if seq == 0 {
+		seq = k.seq
+	}
+	heap.Push(&k.q, &Event{At: at, Key: key, Seq: seq, Run: run})
 	w := k.sleepTarget >= 0 && at < k.sleepTarget
 	k.mu.Unlock()
 	if w {
@@ -268,7 +313,14 @@ func matchStr(pat, s string) bool {
 // Yield is called by library goroutines (never by the driver) at every seam: callbacks,
 // logger calls, socket calls, lock acquisitions and releases. The plan decides whether the
 // goroutine continues or parks for a virtual duration.
-func (k *Kernel) Yield(class, ident string) {
+func (k *Kernel) Yield(class, ident string) { k.YieldT(class, ident, "") }
+
+// YieldT is Yield with a tie-breaker: when several goroutines wait at the same seam at the
+// same instant (three ChannelBind refreshes started by one timer tick reach the socket write
+// together), the driver releases them in the order of tie - derived from what each is about
+// to do (the bytes it writes, the line it logs) - not in the order they happened to arrive,
+// which belongs to the Go scheduler and changes under preemption.
+func (k *Kernel) YieldT(class, ident, tie string) {
 	if k.Free {
 		return
 	}
@@ -330,7 +382,12 @@ func (k *Kernel) Yield(class, ident string) {
 		// strict scheduling: every seam hands control back to the driver, which releases
 		// one goroutine at a time in (time, site identity) order
 		ch := make(chan struct{})
-		k.After(0, "go:"+key, func() { close(ch) })
+		ek := "go:" + key
+		if tie != "" {
+			ek += "#" + tie
+		}
+		// same seam, same instant, same tie: oldest goroutine first
+		k.atSeq(k.Now(), ek, k.tieSeq(), func() { close(ch) })
 		<-ch
 		return
 	}
